@@ -61,7 +61,7 @@ def build_go():
     Cached by a hash of the Go sources of /repo and of the harness."""
     os.makedirs(BUILD, exist_ok=True)
     hsrc = sorted(glob.glob(os.path.join(VERIF, "harness", "zzverif", "*.go"))) + sorted(glob.glob(os.path.join(VERIF, "harness", "astdiff", "*.go"))) + \
-           sorted(glob.glob(os.path.join(VERIF, "harness", "engine", "*.go")))
+           sorted(glob.glob(os.path.join(VERIF, "harness", "engine", "*.go"))) + sorted(glob.glob(os.path.join(VERIF, "harness", "parse", "*.go")))
     with Lock("go"):
         key = tree_hash(repo_sources() + hsrc)
         stamp = os.path.join(BUILD, "go.stamp")
@@ -83,6 +83,13 @@ def build_go():
         if r.returncode != 0:
             raise BuildError("gopatch does not build:\n" + r.stderr)
         r = run(["go", "build", "-tags", "verif", "-overlay", ovp, "-o", harn, "./internal/zzverif"], cwd=REPO, env=GOENV)
+        if r.returncode != 0 and "zz_verif_split.go" in r.stderr:
+            # package parse has no splitPatch of the shape the overlay file calls (renamed, other signature): build without
+            # that file; the split stream then cuts the versions itself and compares only where the elisions are recorded
+            ov2 = {"Replace": {k: v for k, v in ov["Replace"].items() if not k.endswith("zz_verif_split.go")}}
+            with open(ovp, "w") as f:
+                json.dump(ov2, f)
+            r = run(["go", "build", "-tags", "verif,nosplit", "-overlay", ovp, "-o", harn, "./internal/zzverif"], cwd=REPO, env=GOENV)
         if r.returncode != 0:
             raise BuildError("harness does not build against the tree:\n" + r.stderr)
         # the structure of go/ast as reflection shows it, for the driver's typing check (VERIF_SCHEMA)
@@ -99,7 +106,7 @@ def build_go():
 def build_race_harness():
     """The harness built with the race detector (cgo needed), cached like the other binaries; None if it cannot be built."""
     hsrc = sorted(glob.glob(os.path.join(VERIF, "harness", "zzverif", "*.go"))) + sorted(glob.glob(os.path.join(VERIF, "harness", "astdiff", "*.go"))) + \
-           sorted(glob.glob(os.path.join(VERIF, "harness", "engine", "*.go")))
+           sorted(glob.glob(os.path.join(VERIF, "harness", "engine", "*.go"))) + sorted(glob.glob(os.path.join(VERIF, "harness", "parse", "*.go")))
     with Lock("go"):
         key = tree_hash(repo_sources() + hsrc)
         stamp = os.path.join(BUILD, "race.stamp")
